@@ -106,8 +106,14 @@ def run(ctx):
         names = list(sizes)
         genome = bnp.Genome.from_dict(sizes)
         ivs = gen_intervals(r, sizes)
+        ivs_sorted = list(ivs)
+        shuffled = len(ivs) >= 2 and r.random() < 0.4
+        if shuffled:
+            # rows in any order (not grouped by chromosome): everything but merging takes them as they come
+            r.shuffle(ivs)
+            ctx.count("tables_with_rows_in_any_order")
         strands = [r.choice("+-") for _ in ivs]
-        wit = {"sizes": sizes, "intervals": ivs, "strands": strands, "seed": case["seed"]}
+        wit = {"sizes": sizes, "intervals": ivs, "strands": strands, "seed": case["seed"], "rows_in_any_order": shuffled}
         boundary = any(b == sizes[c] for c, a, b in ivs) and any(a == 0 for c, a, b in ivs)
         key = (tuple(sizes.items()), tuple(ivs))
         nt = key if (len({c for c, _, _ in ivs}) >= 2 or boundary) else None
@@ -116,6 +122,8 @@ def run(ctx):
             return
         gi = genome.get_intervals(tbl(ivs))
         gs = genome.get_intervals(tbl(ivs, strands), stranded=True)
+        gi_m = genome.get_intervals(tbl(ivs_sorted)) if shuffled else gi         # merging wants sorted input
+        mine_sorted = {n: sorted(v) for n, v in mine.items()}
 
         def cmp_dense(name, got_dict, expf, keysuffix="", names_=None):
             bad = None
@@ -169,11 +177,11 @@ def run(ctx):
                       dict(wit, chrom=bad, got=got_rows[:12]), nt and (nt, name, keysuffix))
 
         for d in (0, r.randint(1, 3)):
-            exp = {n: merge_model(mine[n], d) for n in names}
+            exp = {n: merge_model(mine_sorted[n], d) for n in names}
             sfx = ":d=0" if d == 0 else ":d>0"
-            guard("merged" + sfx, lambda: cmp_rows("merged", rows(gi.merged(d).get_data()) if d else rows(gi.merged().get_data()), exp, sfx))
+            guard("merged" + sfx, lambda: cmp_rows("merged", rows(gi_m.merged(d).get_data()) if d else rows(gi_m.merged().get_data()), exp, sfx))
             if g_ivs:
-                guard("Geometry.merge_intervals" + sfx, lambda: cmp_rows("Geometry.merge_intervals", rows(g.merge_intervals(tbl(g_ivs), d)), exp, sfx, names_=g_names))
+                guard("Geometry.merge_intervals" + sfx, lambda: cmp_rows("Geometry.merge_intervals", rows(g.merge_intervals(tbl([x for x in ivs_sorted if "_" not in x[0]]), d)), exp, sfx, names_=g_names))
         # sorted: shuffle then sort
         perm = list(range(len(ivs)))
         r.shuffle(perm)
@@ -192,19 +200,54 @@ def run(ctx):
         # clip (entries pushed outside first)
         k = r.randint(0, 3)
         pushed = [(c, a - k, b + k) for c, a, b in ivs]
-        exp_clip = {n: [(max(0, a - k), min(sizes[n], b + k)) for a, b in mine[n]] for n in names}
-        guard("clip", lambda: cmp_rows("clip", rows(replace_and_clip(genome, pushed, tbl).get_data()), exp_clip))
+        def cmp_rowwise(name, got_rows, exp_rows):
+            # a row-wise operation: row i of the result belongs to row i of the input, in whatever order the rows came
+            badrow = next((i for i, (a_, b_) in enumerate(zip(got_rows, exp_rows)) if tuple(a_) != tuple(b_)), None if len(got_rows) == len(exp_rows) else min(len(got_rows), len(exp_rows)))
+            ctx.check(name, badrow is None, "%s/per-chromosome" % name, "%s: row %s got %r, single-contig model %r" % (name, badrow, got_rows[badrow:badrow + 1] if badrow is not None else None, exp_rows[badrow:badrow + 1] if badrow is not None else None),
+                      dict(wit, got=got_rows[:12], expected=exp_rows[:12]), nt and (nt, name))
+        exp_clip = [(c, max(0, a - k), min(sizes[c], b + k)) for c, a, b in ivs]
+        guard("clip", lambda: cmp_rowwise("clip", rows(replace_and_clip(genome, pushed, tbl).get_data()), exp_clip))
         g_pushed = [x for x in pushed if "_" not in x[0]]
         if g_pushed:
-            guard("Geometry.clip", lambda: cmp_rows("Geometry.clip", rows(g.clip(tbl(g_pushed))), exp_clip, names_=g_names))
+            guard("Geometry.clip", lambda: cmp_rowwise("Geometry.clip", rows(g.clip(tbl(g_pushed))), [x for x in exp_clip if "_" not in x[0]]))
         # extended_to_size
         L = r.randint(1, maxsize + 2)
-        exp_ext = {n: [] for n in names}
+        exp_ext = []
         for (c, a, b), s in zip(ivs, strands):
-            exp_ext[c].append((a, min(a + L, sizes[c])) if s == "+" else (max(b - L, 0), b))
-        guard("extended_to_size", lambda: cmp_rows("extended_to_size", rows(gs.extended_to_size(L).get_data()), exp_ext))
+            exp_ext.append((c, a, min(a + L, sizes[c])) if s == "+" else (c, max(b - L, 0), b))
+        guard("extended_to_size", lambda: cmp_rowwise("extended_to_size", rows(gs.extended_to_size(L).get_data()), exp_ext))
         if g_ivs:
-            guard("Geometry.extend_to_size", lambda: cmp_rows("Geometry.extend_to_size", rows(g.extend_to_size(tbl(g_ivs, g_strands), L)), exp_ext, names_=g_names))
+            guard("Geometry.extend_to_size", lambda: cmp_rowwise("Geometry.extend_to_size", rows(g.extend_to_size(tbl(g_ivs, g_strands), L)), [x for x in exp_ext if "_" not in x[0]]))
+        # a selection of an object whose pileup / mask has been computed already: the selection's results are those of the selected rows alone
+        def selection_after_use():
+            m = len(ivs)
+            kind = r.choice(["mask", "slice", "index"])
+            if kind == "mask":
+                keep = [r.random() < 0.5 for _ in range(m)]
+                idx = np.array(keep, dtype=bool)
+                sel_rows = [x for x, k_ in zip(ivs, keep) if k_]
+            elif kind == "slice":
+                a_ = r.randint(0, m - 1); b_ = r.randint(a_, m)
+                idx = slice(a_, b_)
+                sel_rows = ivs[a_:b_]
+            else:
+                ii = [r.randrange(m) for _ in range(r.randint(0, 4))]
+                idx = np.array(ii, dtype=int)
+                sel_rows = [ivs[i] for i in ii]
+            sub = gi[idx]          # gi.get_pileup() and gi.get_mask() ran above
+            smine = per_chrom(sel_rows, names)
+
+            def scov(n):
+                c_ = np.zeros(sizes[n], dtype=int)
+                for a_, b_ in smine[n]:
+                    c_[a_:b_] += 1
+                return c_
+            cmp_dense("get_pileup", sub.get_pileup().to_dict(), scov, ":selection-of-an-object-used-before")
+            cmp_dense("get_mask", sub.get_mask().to_dict(), lambda n: scov(n) > 0, ":selection-of-an-object-used-before")
+            got = rows(sub.get_data())
+            ctx.check("selection", got == [tuple(x) for x in sel_rows], "selection/rows", "intervals[%s] holds %r, the selected rows are %r" % (kind, got[:6], sel_rows[:6]), dict(wit, selection=kind), nt and (nt, "sel", kind))
+            ctx.count("selections_after_use")
+        guard("selection", selection_after_use)
         # locations
         for where in ("start", "stop", "center"):
             for stranded, obj in ((True, gs), (False, gi)):
@@ -231,6 +274,16 @@ def run(ctx):
             got = rows(w.get_data())
             exp = [(c, max(0, p - f), min(sizes[c], p + f + 1)) for c, p in pos]
             ctx.check("get_windows", got == exp, "get_windows/flank", "get_windows(flank=%d) gave %r expected %r" % (f, got, exp), dict(wit, positions=pos, flank=f, got=got, expected=exp), (key, tuple(pos), f))
+            # locations sorted in genome order (ties and the ends of chromosomes included)
+            pos2 = pos + [(c, p_) for c in names for p_ in (0, sizes[c] - 1) if r.random() < 0.5]
+            r.shuffle(pos2)
+            loc2 = genome.get_locations(LocationEntry([c for c, p in pos2], np.array([p for c, p in pos2], dtype=int)))
+            from bnpmon.util import chrom_names as _cn
+            srt = loc2.sorted()
+            got = list(zip(_cn(srt.chromosome), np.asarray(srt.position).tolist()))
+            exp = sorted(pos2, key=lambda t: (names.index(t[0]), t[1]))
+            ctx.check("sorted", got == exp, "sorted/genome-order:locations", "locations.sorted() gave %r expected %r" % (got, exp), dict(wit, positions=pos2, got=got, expected=exp), (key, tuple(pos2), "locsort") if len(pos2) >= 2 else None)
+            ctx.count("location_sorts")
             ws = r.randint(1, 7)
             got = rows(loc.get_windows(window_size=ws).get_data())
             exp = [(c, max(0, p - ws // 2), min(sizes[c], p + ws // 2 + ws % 2)) for c, p in pos]
@@ -304,7 +357,7 @@ def run(ctx):
                 m1 = np.asarray(gi.get_pileup().to_dict()[c]).tolist()
                 m2 = np.asarray(gi2.get_pileup().to_dict()[c]).tolist()
                 ctx.check("independence", m1 == m2, "independence/pileup-depends-on-other-chromosome", "pileup of %s changed when entries of other chromosomes were replaced" % c, dict(wit, chrom=c, other=ivs2), (key, tuple(ivs2)))
-                a1 = per_chrom(rows(gi.merged(1).get_data()), names)[c]
+                a1 = per_chrom(rows(gi_m.merged(1).get_data()), names)[c]
                 a2 = per_chrom(rows(gi2.merged(1).get_data()), names)[c]
                 ctx.check("independence", a1 == a2, "independence/merged-depends-on-other-chromosome", "merged(1) of %s changed when entries of other chromosomes were replaced" % c, dict(wit, chrom=c, other=ivs2), (key, tuple(ivs2), "m"))
 
